@@ -122,6 +122,12 @@ def walk(pid, name, files, main, hs, case, out, part, checker):
         part["stats"]["rejected"] += 1
         return
     model = dbgmodel.Model(out)
+    fresh = out["fresh"]
+    if pid in ("C06", "C17") and (fresh[1] != 0 or fresh[3:5] != ["none", -1] or fresh[5] != 0 or fresh[6] != [] or fresh[9] != 0 or fresh[10] != []):
+        part["violations"].append({"signature": "fresh-machine-state", "message": "a newly constructed VM reports ip=%s location=%s:%s stepping=%s enabled=%s activations=%s BREAK opcodes=%s"
+                                   % (fresh[1], fresh[3], fresh[4], fresh[5], fresh[6], fresh[9], fresh[10]),
+                                   "case": {"mode": "dbg", "main": main, "files": files, "opts": [["budget", 4000]]}})
+        return
     part["stats"]["programs"] += 1
     part["stats"]["path-length-total"] += len(out["path"])
     for h, obs in zip(hs, out["hist"]):
